@@ -200,6 +200,10 @@ def run(ctx, build):
                 ('reduce_to_hdf5', lambda: u.reduce([lay.pos_labels[0]], to_hdf5=True)),
                 ('Process', lambda: procutil.MapProc(main)),
                 ('Process.compute', lambda: procutil.MapProc(main).compute(override=True)),
+                # the same with earlier results of the very same process in the target: complete (Fit_000) and partial (Fit_001)
+                ('Process_with_complete_results', lambda: procutil.MapProc(main, name='Fit')),
+                ('Process_with_partial_results', lambda: procutil.MapProc(main, name='Fit', parms={'parm_1': 2})),
+                ('Process.compute_with_partial_results', lambda: procutil.MapProc(main, name='Fit', parms={'parm_1': 2}).compute()),
             ]
             for label, thunk in writers:
                 hist['write_entry_points_on_readonly'] += 1
@@ -218,7 +222,7 @@ def run(ctx, build):
     out.rule = ('sequences of 3..8 read-side calls (22 kinds: recognise, wrap, print, search, reshape eager/lazy, toggle, slice N-D / 2-D, reduce in memory, unit '
                 'values, look up earlier results, compare parameters, print_tree) with generated arguments on generator files opened "r" (SHA-256 of the '
                 'file before/after) and "r+" (canonical dump of every dataset and attribute before/after), a dynamic tracer on every h5py write entry '
-                'point; 11 write-side entry points against a read-only handle; non-trivial = distinct call sequence')
+                'point; 14 write-side entry points (incl. Process on a target that already holds complete / partial results of the same process) against a read-only handle; non-trivial = distinct call sequence')
     out.histogram = hist
     an = effects.build(ctx.repo)
     out.extra = {'graph_nodes': len(an.funcs), 'read_entry_points': len(effects.READ_ENTRY_POINTS), 'exhaustive_graph': True,
